@@ -191,9 +191,35 @@ fn message(plan: u64, k: usize, m: usize) -> Vec<u8> {
     (0..len).map(|j| mix(s + j as u64) as u8).collect()
 }
 
+const MACHINE_ORACLE: crate::machine::Oracle = crate::machine::Oracle::Salts;
+const MACHINE_OPS: usize = 60;
+
+/// The API history machine (harness/src/machine.rs) with this property's invariant.
+pub struct ApiHistory;
+
+impl Sub for ApiHistory {
+    type Case = crate::machine::History;
+    fn name(&self) -> &'static str {
+        "api_history"
+    }
+    fn max_shrink_iters(&self) -> u32 {
+        200
+    }
+    fn strategy(&self, _env: &Env) -> BoxedStrategy<crate::machine::History> {
+        crate::machine::strategy(MACHINE_OPS)
+    }
+    fn check(&self, c: &crate::machine::History, st: &mut Stats) -> Result<(), Fail> {
+        crate::machine::run(c, MACHINE_ORACLE, st)?;
+        st.nontrivial(&format!("{:?}", c.ops));
+        st.sample("api_history", || serde_json::json!({"variants": c.variants, "ops": c.ops.iter().take(12).collect::<Vec<_>>()}));
+        Ok(())
+    }
+}
+
 const META: Meta = Meta {
     rule: "proptest histories of sign calls with the real entropy path (no scripted randomness): 1-4 Falcon-512 and 1-2 Falcon-1024 keys, 1-4 messages per key (so (key, message) pairs repeat thousands of times; message no. 1 of every key is a large message of 4100-70000 bytes whose length is shared by all keys of the history), 6-12 threads started at the beginning and 6-12 fresh threads started mid-history (a third of the threads sign with the shared key object, a third with their own clone of it, a third with their own copy decoded from its bytes; clones and copies of the second wave are taken after thousands of signatures), and child processes (the harness re-executes itself) each signing one fixed (key, message) four times. Invariants over the whole history: all salts pairwise distinct (which includes: same (key, message) signed twice => different salts; first salts of fresh threads and fresh processes distinct), all signature byte strings distinct, every one of the 320 salt bit positions takes both values, every salt byte position passes a chi-square test against the uniform distribution on 256 values at p = 1e-12. Non-trivial = a history with a repeated (key, message) pair and more than one thread or a child process; the count adds each repeated pair, fresh thread and child process of such a history.",
     assumptions: &[
+        "api_history sub-check: generated histories of 6-60 operations over four in-place key slots (load a fresh object, regenerate, clone, encode/decode, drop, sign and verify on this or a fresh thread; messages include the empty one and two large ones of equal length), interpreted against the obvious model with this property's invariant",
         "'drawn from the OS-seeded generator' is observable only through these consequences: a generator with >= 2^64 states seeded badly but differently per process would pass",
         "false alarms: a collision of honest 320-bit salts has probability < 1e-80; the 40 chi-square tests together < 4e-11; a constant bit among >= 2000 honest salts < 1e-599",
         "birthday bound: N salts detect any salt source with fewer than about N^2/2 states with probability > 1/2 (50 000 salts per history: about 2^30 states; 400 000 in the thorough tier: 2^36)",
@@ -202,7 +228,7 @@ const META: Meta = Meta {
 
 pub fn run(env: &Env, replay: Option<&Path>) -> i32 {
     let mut report = Report::new();
-    let subs: [&dyn DynSub; 1] = [&SaltHistory];
+    let subs: [&dyn DynSub; 2] = [&SaltHistory, &ApiHistory];
     if let Some(p) = replay {
         if let Err(e) = replay_file(env, &subs, p, &mut report) {
             eprintln!("harness: {}", e);
@@ -212,6 +238,7 @@ pub fn run(env: &Env, replay: Option<&Path>) -> i32 {
     }
     replay_corpus(env, &subs, &mut report);
     drive(env, &SaltHistory, env.tier.pick(2, 8), &mut report);
+    drive(env, &ApiHistory, env.tier.pick(2_000, 80_000), &mut report);
     if env.tier == Tier::Thorough {
         // one long history on two threads only: 70 000 consecutive signatures per thread, past any
         // 16-bit per-thread call counter
